@@ -1,7 +1,9 @@
 """stream pa (model correspondence): whole parses of the DIMACS family, solver logs, the two AIGER formats and BTOR2
 on the reader model, compared with the implementation: items, final outcome incl. error location or I/O error,
 number of read calls.  BTOR2: every field of every line (or, flags 'w', the bytes `Line::write_into` writes for every
-parsed line), plus `pa b2c` cases for the validating constructors of the constants."""
+parsed line), plus `pa b2c` cases for the validating constructors of the constants.  AIGER flags 'w': the whole-file API;
+'x': the whole-file API, then the bytes the crate's writers produce for the parsed value (ascii::Writer::write_aig; binary:
+binary::Writer::write_ordered_aig, the same with every gate's inputs exchanged, ascii::Writer::write_ordered_aig)."""
 import re
 from streams import docs
 
@@ -188,7 +190,9 @@ def gen_aiger(rng, parser):
             data = aiger_corrupt(rng, data, ty, binary)
     if len(data) > 400:
         return None
-    flags = "w" if rng.random() < 0.25 else "-"
+    # 'w': whole-file API; 'x': whole-file API, then the value written back with the crate's writer (one draw, as before)
+    fr = rng.random()
+    flags = "w" if fr < 0.25 else ("x" if fr < 0.45 else "-")
     sched = docs.gen_schedule(rng, len(data))
     if rng.random() < 0.15:
         sched = faulty(rng, sched, len(data))
@@ -226,7 +230,7 @@ def gen(rng, n, tier, **kw):
 
 def category(case):
     t = case.split()
-    return "pa/" + t[1] + ("/w" if t[1] == "btor2" and "w" in t[3] else "")
+    return "pa/" + t[1] + ("/w" if t[1] == "btor2" and "w" in t[3] else "") + ("/x" if t[1] in ("aag", "aig") and "x" in t[3] else "")
 
 
 def nontrivial(case):
